@@ -19,9 +19,9 @@ META = {
     "assumptions": [
         "positions are those of the tree's JSON (R-DATA); a consistent shift inside the data moves library and oracle together and is out of reach offline (see DESIGN C11 limit)",
     ],
-    "min_distinct": {"quick": 8000, "thorough": 100000},
+    "min_distinct": {"quick": 12000, "thorough": 300000},
 }
-SIZES = {"quick": dict(per_country=24, bics=1500), "thorough": dict(per_country=900, bics=60000)}
+SIZES = {"quick": dict(per_country=60, bics=4000), "thorough": dict(per_country=3000, bics=200000)}
 COMPONENTS = data.COMPONENTS
 
 
